@@ -85,7 +85,7 @@ EXTRA = {
  "C14": "Spectra of 4 098..8 910 entries; through the CLI also the input scaled by 2^-70 and folded at --precision 60 (scale-free statistics).",
  "C15": "Reader: files of 511..8 193 values (data sections around 512 B..64 KiB) with every value compared; writer through `-o` onto an existing longer file.",
  "C16": "Files whose data section is a whole multiple of 512 B..128 KiB; damaged files under names ending .npy/.sfs/.txt/.bin/none; `-O npy`, `-O text`, `-o FILE` variants (the -o file must not hold a spectrum either).",
- "C17": "Every tuple of <= 3 declared axis lengths over {0,1,2,3,2^32,2^63,2^64-1} (text) and {0,1,2,2^32,2^64-1} (npy); npy shape () with 0/1/3 values; 5 000..40 000 axes of length 1; every statistic family on them; 20..70 one-sample populations.",
+ "C17": "Every tuple of <= 3 declared axis lengths over {0,1,2,3,2^32,2^63,2^64-1} (text) and {0,1,2,2^32,2^64-1} (npy); npy shape () with 0/1/3 values; 5 000..40 000 axes of length 1; every statistic family on them; 20..70 one-sample populations; hostile IDX attributes in BCF headers; reserved bit patterns in FORMAT fields; (thorough) 150 000 axes.",
  "C18": "Each fault once persistent and once transient (a single failing call, later calls succeed), call-set faults also with error kinds UnexpectedEof and BrokenPipe; EPIPE and ENOSPC on the binary's stdout, and a file-size limit that makes a write fail in the middle or in the last block of the output.",
  "C19": "Arrays of 1 025..8 193 elements; all 220 shapes with a zero-length axis among <= 4 axes of length 0..3; iterators over axes that do not exist; sums on signed fills (all negative, mixed with zeros, sign by position).",
 }
